@@ -84,17 +84,22 @@ def variants(case, rnd, tier):
     out.append(("text", mn.replace("(", "( ").replace(")", " )")))          # blanks inside parentheses
     out.append(("list", [mn]))
     out.append(("list", [full, "@" + "a", at]))                             # a term list: conjunction
+    leafy = "".join(case["leafy"])
+    out.append(("text", leafy))                                             # every operand in its own parentheses
+    out.append(("list", [leafy, "(b) or (?b)"]))                            # terms that start with "(" and end with ")" without being one group
     return out
 
 
 def run(chk):
     from behave.tag_expression import TagExpressionProtocol
     rnd = random.Random(chk.seed)
-    cfg = "TagExpr_MC_quick.cfg" if chk.quick() else "TagExpr_MC_mid.cfg"
-    r = chk.tlc("TagExpr_MC", cfg, timeout=3000)
-    for name in r.violated:
-        chk.violation("C07.design." + name, "design:%s" % name, "TLC: invariant %s violated in TagExpr_MC (%s)" % (name, cfg))
-    cases = [json.loads(t[1]) for t in r.by_tag("CASE")]
+    cases = []
+    # quick: depth <= 2 over the small operand pool + depth <= 1 over the full pool (character classes, dots, '=', '-')
+    for cfg in (("TagExpr_MC_quick.cfg", "TagExpr_MC_quick2.cfg") if chk.quick() else ("TagExpr_MC_mid.cfg",)):
+        r = chk.tlc("TagExpr_MC", cfg, timeout=3000)
+        for name in r.violated:
+            chk.violation("C07.design." + name, "design:%s" % name, "TLC: invariant %s violated in TagExpr_MC (%s)" % (name, cfg))
+        cases += [json.loads(t[1]) for t in r.by_tag("CASE")]
     chk.exhaustive = True
     rows = []
     meta = {}
